@@ -121,7 +121,7 @@ class HeapMixin(object):
     elif ty.k == 'set':
       out.append((self.ckey(ty, 'mem'), [I, base_sort(ty.args[0]), B]))
       out.append((self.ckey(ty, 'card'), [I, I]))
-    elif ty.k == 'dict':
+    elif ty.k in ('dict', 'ddict'):
       out.append((self.ckey(ty, 'has'), [I, base_sort(ty.args[0]), B]))
       out.append((self.ckey(ty, 'card'), [I, I]))
       for suf, so in flatten(ty.args[1]):
